@@ -14,6 +14,7 @@ import itertools
 
 from mc import cells as C
 from mc import sgr
+from mc import repeat
 from mc.runner import Acc, Report
 
 LEVEL = "model_checking"
@@ -275,8 +276,8 @@ def shard_derived(args):
 def shard_exotic(args):
     tier, seed, idx = args
     acc = Acc(seed=seed)
-    specs = C.exotic_specs() + C.huge_specs()
-    for si in range(idx, len(specs), 8):
+    specs = C.exotic_specs() + C.huge_specs() + C.scale_specs(tier == "thorough")
+    for si in range(idx, len(specs), 32):
         spec = specs[si]
         f = C.build(spec)
         want = C.spec_cells(spec)
@@ -302,7 +303,8 @@ def shard_exotic(args):
 
 def run(ctx):
     rep = Report()
-    for d in ctx.pmap(shard_exotic, [(ctx.tier, ctx.seed, i) for i in range(8)]):
+    repeat.run_into(ctx, rep, "C01")
+    for d in ctx.pmap(shard_exotic, [(ctx.tier, ctx.seed, i) for i in range(32)]):
         rep.merge(d, "long_and_exotic_values")
     grid = [(ctx.tier, ctx.seed, fg, bg) for fg in COL for bg in COL]
     for d in ctx.pmap(shard_singles, grid):
